@@ -87,9 +87,12 @@ RX = [
      'checks': [
          # the pattern stage must let through: dotted-quad IPv4, host names, and every candidate
          # IPv6 text (hex digits, ':' and '.', at least one colon) - inet_pton decides those afterwards
-         {'label': 'accepts-exactly', 'kind': 'match-then-whole', 'carries': 'C09',
+         # (the statement does not say whether a ONE-character host name is a host name: allowed either way)
+         {'label': 'accepts-exactly', 'kind': 'between', 'carries': 'C09',
           'spec': r'(?:' + OCTET + r'\.){3}' + OCTET + r'|[A-Za-z_](?:[-A-Za-z0-9_.]*[-A-Za-z0-9_])?'
-                  r'|[0-9A-Fa-f:.]+:[0-9A-Fa-f:.]*'},
+                  r'|[0-9A-Fa-f:.]+:[0-9A-Fa-f:.]*',
+          'spec_lower': r'(?:' + OCTET + r'\.){3}' + OCTET + r'|[A-Za-z_][-A-Za-z0-9_.]*[-A-Za-z0-9_]'
+                        r'|[0-9A-Fa-f:.]+:[0-9A-Fa-f:.]*'},
          {'label': 'first-match-equals-full-language', 'kind': 'first-equals-full', 'carries': 'C09'},
      ]},
 ]
